@@ -12,9 +12,17 @@ I          the real schema build (XMLSchema10 / XMLSchema11), lax mode for batch
 
 Per (version, model): I vs M = error kind of check_model, the sequence of distinguishable_paths calls
 (pair, result) recorded on the real code, and the XSD 1.1 precedences; I vs O = the property.
-The pinned check_model is a heuristic (known finding C15-F0, call site models.py:36-174): a deviation
+The pinned check_model is a heuristic (known finding C15-F0, call site models.py:36-180): a deviation
 of the build outcome from the oracle is *known* iff the Lean port gives the same outcome as the real
-code on that model; any other deviation is a violation.
+code on that model; any other deviation is a violation.  (C15-F1 and C15-F2 are fixed and never matched.)
+
+Proved about the port and re-checked against the oracle on every run: exact on the families 'flat-choice'
+and 'flat-seq' (checkModel_refines_partial / checkModel_refines_flat_seq_partial); an EDC error of the port
+implies an EDC violation whenever the driver's `tie` holds (checkModel_edc_error_sound); the models of the
+counter-example theorems (corpus/C15/theorem-witnesses.json, with the outcome each theorem states) are
+replayed first.  XSD 1.1 extras: wildcards with notQName ##defined / ##definedSibling (port: is_matching
+without group, so only ##defined counts; S/O: the tokens expanded to the names they denote) and models
+under xs:openContent (check_model must behave as without it; S/O read the explicit model).
 """
 from __future__ import annotations
 
@@ -30,10 +38,14 @@ PROPS = 'XsVerif.Props.C15'
 AUDIT = 'XsVerif.Audit.C15'
 LEAN_TARGETS = ['XsVerif.Props.C15', 'drv_c15']
 LEANCHECK = ['XsVerif.Model.Upa', 'XsVerif.Lemmas.Upa', 'XsVerif.Model.CheckModel', 'XsVerif.Lemmas.CheckModel',
-             'XsVerif.Lemmas.CheckModelFlat', 'XsVerif.Props.C15']
+             'XsVerif.Lemmas.CheckModelFlat', 'XsVerif.Lemmas.FlatSeqLang', 'XsVerif.Lemmas.CheckModelSeq',
+             'XsVerif.Lemmas.CheckModelErr', 'XsVerif.Props.C15']
 RULE = ('case = (XSD version, content model). Models: the complete family with ≤2 leaves over {a,b}, sequence/choice '
         'nested to depth 2, occurrences from {1,?,*,{1,2}} (46k models per version, complete in the thorough tier, sampled '
         'in the quick tier), every choice of ≤3 plain element references (the fragment of checkModel_refines_partial), '
+        'every sequence{1,1}/{0,1} of ≤3 plain element references (the fragment of checkModel_refines_flat_seq_partial), '
+        'XSD 1.1 wildcards with notQName ##defined / ##definedSibling among the wildcard forms, models under XSD 1.1 '
+        'open content (interleave / suffix), '
         'seeded members of the same family with all of {1,?,*,+,{2,2},{1,2},{0,0}}, with a wildcard '
         'leaf, and with 3 leaves, '
         'all pairs of leaves from {a, substitution head and members, 10 wildcard forms} in two-item sequences/choices, an Element-Declarations-Consistent family with local '
@@ -49,13 +61,18 @@ TRUSTED = ['alphabet Σ given to the oracle: every element name of the model (wi
            'names in the xsi namespace are not in Σ (is_namespace_allowed admits them for every positive wildcard)',
            'independent Glushkov position-automaton reference (harness/lib_cm15.py) cross-checks the proved oracle',
            'type identity (`is`) is serialised as small integers per schema']
-ASSUMPTIONS = ['no type alternatives and no open content in the explored models (their consistency clauses are not ported)',
+ASSUMPTIONS = ['no type alternatives in the explored models: the type-table clauses of is_consistent (element vs wildcard, '
+               'open-content wildcard vs element, strict=False) are then constantly true and are not ported; the '
+               'open-content family checks on the real code that open content changes nothing in check_model',
+               'open content is not a particle of the content model: it competes with nothing (XSD 1.1 UPA is about the '
+               'particles of the explicit content model), so S/O read the explicit model only',
+               '##defined / ##definedSibling are given to S/O by their denotation: the wildcard with the global element '
+               'names of the schema / the names matched by the element particles of the model added to notQName',
                'XMLSchemaModelDepthError (models nested deeper than MAX_MODEL_DEPTH) is outside the explored sizes']
 
 KNOWN_ID = 'C15-F0'
+WIT_EXPECT: dict = {}
 FUEL = 3000
-# set to True once notes/fixes/C15-root-maxoccurs-zero.patch is applied to /repo (the port then skips an empty root too)
-ROOT_MAX0_FIX = True
 PINNED_FILE = VERIF / 'corpus' / 'C15' / 'pinned-deviations.json'
 _pinned: Optional[dict] = None
 
@@ -79,9 +96,6 @@ def known_match(case: Any, detail: Any) -> Optional[str]:
     if detail.get('port_ok') is not None:
         if detail['port_ok'] != detail.get('impl_ok'):
             return None
-        ast = case.get('ast')
-        if ast and ast[3] == 0 and not detail.get('impl_ok') and not ROOT_MAX0_FIX:
-            return 'C15-F2'       # empty root group still checked (one-line repair proposed)
         if detail.get('shared') and detail.get('impl_ok'):
             return 'C15-F3'       # a particle object shared by two places of the model is never compared with itself
         return KNOWN_ID
@@ -95,6 +109,8 @@ def observe(models: list[tuple], v11: bool) -> tuple[Any, list[Optional[dict]]]:
     type_ids: dict[int, int] = {}
     out: list[Optional[dict]] = []
     for k, ast in enumerate(models):
+        if ast[0] == 'oc':
+            ast = ast[3]
         xe = schema.elements.get(f'm{k}')
         if xe is None or not hasattr(xe.type, 'content') or not hasattr(xe.type.content, 'model'):
             out.append(None)
@@ -123,6 +139,7 @@ def strict_outcome(ast: tuple, v11: bool) -> str:
 
 
 def py_overlap(ast: tuple) -> bool:
+    c15.set_sibs(ast)
     ls = c15.leaves(ast)
     return any(any(c15.leaf_matches(x, s) and c15.leaf_matches(y, s) for s in c15.UNIVERSE)
                for i, x in enumerate(ls) for y in ls[i + 1:])
@@ -150,7 +167,8 @@ def run_batch(ctx: Ctx, drv: Optional[Driver], models: list[tuple], v11: bool, f
                      type(e).__name__, None)
         return
     reqs, pend = [], []
-    for ast, ob in zip(models, obs):
+    for full, ob in zip(models, obs):
+        oc, ast = (full[1:3], full[3]) if full[0] == 'oc' else (None, full)
         if ob is None:
             ctx.count(f'{fam}:not-built')
             continue
@@ -164,16 +182,28 @@ def run_batch(ctx: Ctx, drv: Optional[Driver], models: list[tuple], v11: bool, f
             continue
         if intro.shared:
             ctx.count('shared-particle-objects')
-        reqs.append(dict(intro.request(v11, FUEL), rootfix=ROOT_MAX0_FIX))
-        pend.append((ast, ob))
+        if oc is not None:
+            got = intro.open_content
+            if got is None or got['mode'] != oc[0]:
+                ctx.mismatch('open content of the generated model was not built', {'model': c15.show(ast), 'oc': list(oc)},
+                             got, list(oc))
+                continue
+            ctx.count('open-content:' + oc[0])
+        elif intro.open_content is not None:
+            ctx.mismatch('unexpected open content', {'model': c15.show(ast)}, intro.open_content, None)
+            continue
+        reqs.append(intro.request(v11, FUEL))
+        pend.append((ast, ob, full))
     answers = drv.query(reqs) if drv is not None and reqs else [None] * len(reqs)
-    for (ast, ob), ans in zip(pend, answers):
-        case = {'v': '1.1' if v11 else '1.0', 'model': c15.show(ast), 'ast': ast}
+    for (ast, ob, full), ans in zip(pend, answers):
+        case = {'v': '1.1' if v11 else '1.0', 'model': c15.show(ast), 'ast': full}
+        if full[0] == 'oc':
+            case['open_content'] = [full[1], full[2]]
         impl_ok = ob['kind'] is None
         ref = c15.glushkov_upa(ast, v11)
         edc_ref = c15.edc_ref(ast)
         if ctx.rng.random() < strict_p:
-            so = strict_outcome(ast, v11)
+            so = strict_outcome(full, v11)
             ctx.count('strict:' + so)
             if (so == 'ok') != impl_ok or so.startswith('other'):
                 ctx.failure('strict build outcome differs from the model error recorded by the lax build', case,
@@ -218,13 +248,28 @@ def run_batch(ctx: Ctx, drv: Optional[Driver], models: list[tuple], v11: bool, f
             ctx.mismatch('proved oracle vs independent position automaton', case, ref, o)
         if ans['edc'] != edc_ref:
             ctx.mismatch('edcCheck vs generator-level reference', case, edc_ref, ans['edc'])
+        # hypothesis of checkModel_edc_error_sound (the type table covers what the port reads) and the two keyings
+        # of the type table agree
+        if not ans['tie'] or ans['edc_p'] != ans['edc']:
+            ctx.mismatch('type table given to the specification does not cover the element data given to the port',
+                         case, {'tie': ans['tie'], 'edc_by_object': ans['edc_p']}, {'edc_by_occurrence': ans['edc']})
+        if m['res'] == 'edc' and ans['edc_p']:
+            ctx.mismatch('port raises an EDC error on a consistent model: contradicts checkModel_edc_error_sound', case,
+                         {'port': m}, {'edc': ans['edc_p']})
+        if fam == 'theorem-witnesses':
+            exp = WIT_EXPECT.get((case['v'], json.dumps(ast, default=list)))
+            got = {'impl_ok': impl_ok, 'deterministic': det, 'edc': ans['edc']}
+            if exp is not None and exp != got:
+                ctx.mismatch('a counter-example theorem of Props/C15.lean does not replay on the real code', case, got, exp)
+            ctx.count('theorem-witness-replayed')
         # --- the property on the real code
         expected = det and ans['edc']
         ctx.count('impl_ok=%s/deterministic=%s/edc=%s' % (impl_ok, det, ans['edc']))
-        if fam == 'flat-choice' and (m['res'] == 'ok') != expected:
-            # theorem checkModel_refines_partial: on this fragment the port is exact; a disagreement means the
-            # introspected data do not satisfy the theorem's guard (serialisation / model drift)
-            ctx.mismatch('flat-choice fragment: port vs oracle contradicts checkModel_refines_partial', case,
+        if fam in ('flat-choice', 'flat-seq') and (m['res'] == 'ok') != expected:
+            # theorems checkModel_refines_partial / checkModel_refines_flat_seq_partial: on these fragments the port
+            # is exact; a disagreement means the introspected data do not satisfy the theorem's guard
+            # (serialisation / model drift)
+            ctx.mismatch(fam + ' fragment: port vs oracle contradicts the exactness theorem of the fragment', case,
                          {'port': m['res']}, {'upa': o, 'edc': ans['edc']})
         if impl_ok != expected:
             detail = {'impl_ok': impl_ok, 'impl_error': ob['kind'], 'expected_ok': expected, 'upa': o, 'edc': ans['edc'],
@@ -246,10 +291,15 @@ def families(ctx: Ctx, with_driver: bool = True):
     occ3 = [(1, 1), (0, 1), (0, None), (2, 2), (1, 2)]
     edc = c15.edc_models()
     wit = json.loads((VERIF / 'corpus' / 'C15' / 'theorem-witnesses.json').read_text())['models']
+    for m in wit:
+        for v, e in (m.get('expect') or {}).items():
+            WIT_EXPECT[(v, json.dumps(tup(m['ast']), default=list))] = e
+    fseq = c15.flat_seqs()
     for v11 in (False, True):
         yield 'theorem-witnesses', v11, [tup(m['ast']) for m in wit if ('1.1' if v11 else '1.0') in m['versions']]
         yield 'exh2-core', v11, (rng.sample(core, 1500) if ctx.quick() else core)
         yield 'flat-choice', v11, (rng.sample(flat, 800) if ctx.quick() else flat)
+        yield 'flat-seq', v11, (rng.sample(fseq, 700) if ctx.quick() else fseq)
         wm = c15.wildcard_models(v11)
         yield 'leaf-pairs', v11, (rng.sample(wm, min(len(wm), 600)) if ctx.quick() else wm)
         yield 'edc', v11, edc
@@ -267,6 +317,9 @@ def families(ctx: Ctx, with_driver: bool = True):
                 refs.append(m)
         yield 'group-refs', v11, refs
         yield 'shared-group-refs', v11, [c15.shared_ref_model(rng, v11) for _ in range(ctx.pick(500, 6000))]
+        if v11:
+            yield 'wildcard-tokens', v11, [c15.token_model(rng) for _ in range(ctx.pick(500, 8000))]
+            yield 'open-content', v11, [c15.open_content_model(rng) for _ in range(ctx.pick(500, 8000))]
 
 
 def have_driver() -> bool:
@@ -344,7 +397,7 @@ def make_pinned() -> None:
 
 
 def tup(x: Any) -> Any:
-    if isinstance(x, list) and x and isinstance(x[0], str) and x[0] in ('e', 'a', 'g', 'l'):
+    if isinstance(x, list) and x and isinstance(x[0], str) and x[0] in ('e', 'a', 'g', 'l', 'oc'):
         return tuple(([tup(j) for j in i] if isinstance(i, list) else i) for i in x)
     return x
 
@@ -354,17 +407,18 @@ def replay(ctx: Ctx, obj: dict) -> int:
     case = obj.get('input') or {}
     if 'ast' not in case:
         return 0
-    ast = tup(case['ast'])
+    full = tup(case['ast'])
+    ast = full[3] if full[0] == 'oc' else full
     v11 = case['v'] == '1.1'
     try:
-        _, obs = observe([ast], v11)
+        _, obs = observe([full], v11)
     except Exception as e:       # noqa: BLE001
         print('implementation: schema construction in lax mode raised', type(e).__name__, str(e)[:300])
         print('judgement: property violated (a lax build records model errors, it does not raise)')
         return 1
     ob = obs[0]
-    ans = Driver('drv_c15').query([dict(ob['intro'].request(v11, FUEL), rootfix=ROOT_MAX0_FIX)])[0]
-    so = strict_outcome(ast, v11)
+    ans = Driver('drv_c15').query([ob['intro'].request(v11, FUEL)])[0]
+    so = strict_outcome(full, v11)
     impl_ok = ob['kind'] is None
     print('implementation: lax build model error =', ob['kind'], ' strict build =', so)
     print('lean port of check_model:', ans['m']['res'], ans['m']['pair'])
